@@ -14,3 +14,8 @@ open IrVerif.Serde
 #print axioms C02_attr_tensor
 #print axioms C02_attr_type
 #print axioms C02_attr_ref
+#print axioms C02_attr
+#print axioms C02_node
+#print axioms C02_graph
+#print axioms C02_function
+#print axioms C02_model
